@@ -17,7 +17,7 @@ import (
 
 // C15: reattach reaches the same live plugin; test mode never kills the server.
 
-var c15Scenarios = []string{"basic", "second-hop", "multi", "kill-b", "kill-a-then-b", "kill-both", "frozen-kill-b", "kill-a-then-reattach", "crash-then-reattach", "nothing-listens", "pid-reused", "testmode", "testmode-kill-many", "testmode-second-hop"}
+var c15Scenarios = []string{"basic", "second-hop", "multi", "kill-b", "kill-a-then-b", "kill-both", "frozen-kill-b", "kill-a-then-reattach", "crash-then-reattach", "nothing-listens", "pid-reused", "testmode", "testmode-kill-many", "testmode-second-hop", "testmode-late", "testmode-long"}
 
 func init() {
 	Register(&Prop{ID: "C15",
@@ -357,8 +357,55 @@ func runC15TestMode(r *h.Run, proto, scen, ctx string, use func(*plugin.Client, 
 	}
 	quiet := func() bool { return w.InjectedTotal() < 2*time.Second }
 	b := reattachClient(r, proto, rc, "B")
+	if scen == "testmode-late" {
+		// the client is started at once and first used well after the reattach
+		// runner's first look at the serving process (one second)
+		if o := r.DoNoHang("B.Start", 60*time.Second, ctx, func() (any, error) { return b.Start() }); o.Err != nil && quiet() {
+			r.Violate("reattach-failed", ctx+" client=B start", o.Err.Error())
+		}
+		time.Sleep(time.Duration(1500+w.Range("testmode/late", 4)*1000) * time.Millisecond)
+		if b.Exited() {
+			r.Violate("reattach-failed", ctx+" client=B reports-exited", "a reattached test-mode client reports the live server as exited")
+		}
+	}
 	if _, err := use(b, "B", "set", "color=teal"); err != nil && quiet() {
 		r.Violate("reattach-failed", ctx+" client=B", err.Error())
+	}
+	if scen == "testmode-long" {
+		// ... and a client that stays attached for a while keeps working
+		for i := 0; i < 3; i++ {
+			time.Sleep(time.Duration(700+w.Range("testmode/long", 4)*500) * time.Millisecond)
+			if b.Exited() {
+				r.Violate("reattach-failed", ctx+" client=B reports-exited", "a reattached test-mode client reports the live server as exited")
+				break
+			}
+			if v, err := use(b, "B", "get", "color"); err != nil && quiet() {
+				r.Violate("reattach-failed", ctx+" client=B later-use", err.Error())
+			} else if err == nil && v != "teal" {
+				r.Violate("wrong-instance", ctx+" client=B later-use", v)
+			}
+			if proto == "grpc" {
+				// a brokered connection through the long-lived client
+				if o := r.DoNoHang("B.broker", 60*time.Second, ctx, func() (any, error) {
+					cp, err := b.Client()
+					if err != nil {
+						return nil, err
+					}
+					raw, err := cp.Dispense(h.PluginName)
+					if err != nil {
+						return nil, err
+					}
+					cmd := raw.(plugins.Cmd)
+					id := uint32(7100 + i)
+					if _, err := cmd.Do("accept", fmt.Sprint(id)); err != nil {
+						return nil, err
+					}
+					return h.HostDialPing(cmd, id)
+				}); o.Err != nil && quiet() {
+					r.Violate("reattach-failed", ctx+" client=B later-broker", o.Err.Error())
+				}
+			}
+		}
 	}
 	rounds := 1
 	if scen == "testmode-kill-many" {
